@@ -614,6 +614,267 @@ def family_source(cfgd, cfg, fon, fba, sort) -> tuple[str, Opts]:
 
 
 # ---------------------------------------------------------------------------
+# nested classes (mixin path): class tables, instance trees, hereditary reference
+# ---------------------------------------------------------------------------
+
+@dataclass(frozen=True)
+class DcField:
+    name: str
+    members: tuple            # class ids; len 1: field of that class, >1: Union
+    optional: bool
+    alias: str | None
+    omit: bool
+
+    def ty(self, prefix: str) -> str:
+        t = prefix + str(self.members[0]) if len(self.members) == 1 else \
+            "Union[" + ", ".join(prefix + str(m) for m in self.members) + "]"
+        return f"Optional[{t}]" if self.optional else t
+
+
+@dataclass(frozen=True)
+class NCls:
+    o: Opts                   # class-level part only (cfgd, cfg, sort, flags)
+    fields: tuple             # of FieldSpec | DcField
+
+
+LEAF_NESTED = [("optint", "val", "None"), ("int", "val", "1"), ("date", "no", None), ("optdate", "val", "None"),
+               ("any", "val", "None"), ("int_none", "val", "None")]
+
+
+def gen_table(rng) -> list[NCls]:
+    n = rng.randint(2, 4)
+    table: list[NCls] = [None] * n
+    for cid in range(n - 1, -1, -1):
+        fon, fba, fdl, fcx = (rng.random() < 0.5 for _ in range(4))
+        o = Opts(cfgd=gen_ns(rng, 0.6), cfg=gen_ns(rng, 0.0), sort=rng.random() < 0.3, fon=fon, fba=fba, fdl=fdl, fcx=fcx)
+        names = rng.sample(NAMES, rng.randint(1, 4))
+        aliases = rng.sample(ALIASES, len(ALIASES))
+        fields = []
+        later = list(range(cid + 1, n))
+        for i, nm in enumerate(names):
+            al = aliases[i] if rng.random() < 0.4 else None
+            if later and (rng.random() < 0.55 or (cid == 0 and i == 0)):
+                if len(later) >= 2 and rng.random() < 0.4:
+                    mem = tuple(rng.sample(later, rng.randint(2, min(3, len(later)))))
+                    fields.append(DcField(nm, mem, False, al, False))
+                else:
+                    fields.append(DcField(nm, (rng.choice(later),), rng.random() < 0.4, al, rng.random() < 0.05))
+            else:
+                sh, dk, ds = rng.choice(LEAF_NESTED)
+                fields.append(FieldSpec(nm, sh, dk, ds, al, rng.random() < 0.08))
+        table[cid] = NCls(o, tuple(fields))
+    return table
+
+
+def nfield_line(f, plain: bool) -> str:
+    if isinstance(f, FieldSpec):
+        return field_line(f, plain)
+    args = []
+    if f.optional:
+        args.append("default=None")
+    md = {}
+    if f.alias is not None:
+        md["alias"] = f.alias
+    if f.omit and not plain:
+        md["serialize"] = "omit"
+    if md:
+        args.append(f"metadata={md!r}")
+    ty = f.ty("P" if plain else "C")
+    return f"    {f.name}: {ty}" + (f" = field({', '.join(args)})" if args else "")
+
+
+def table_source(table: list[NCls], call) -> str:
+    src = HEADER
+    if call is not None:
+        src += dialect_source("CallD", call)
+    for cid in range(len(table) - 1, -1, -1):
+        c = table[cid]
+        if c.o.cfgd is not None:
+            src += dialect_source(f"CfgD{cid}", c.o.cfgd)
+        src += class_source(f"C{cid}", [nfield_line(f, False) for f in c.fields], c.o, cfgd_name=f"CfgD{cid}")
+        src += class_source(f"P{cid}", [nfield_line(f, True) for f in c.fields], None)
+    return src
+
+
+def gen_tree(rng, table, cid: int):
+    """(cid, [child]) where child = python source of a leaf value | None | (cid, [...])"""
+    ch = []
+    for f in table[cid].fields:
+        if isinstance(f, FieldSpec):
+            cands = [v for v in f.sh.values if v != "None" or f.nullable]
+            ch.append("None" if (f.nullable and rng.random() < 0.5) else rng.choice(cands))
+        elif f.optional and rng.random() < 0.3:
+            ch.append("None")
+        else:
+            ch.append(gen_tree(rng, table, rng.choice(f.members)))
+    return (cid, ch)
+
+
+def tree_src(table, t, prefix: str) -> str:
+    cid, ch = t
+    parts = []
+    for f, x in zip(table[cid].fields, ch):
+        parts.append(f"{f.name}=" + (x if isinstance(x, str) else tree_src(table, x, prefix)))
+    return f"{prefix}{cid}(" + ", ".join(parts) + ")"
+
+
+def cls_flags(c: NCls):
+    return (c.o.fon, c.o.fba, c.o.fdl, c.o.fcx)
+
+
+def both_flags(a, b):
+    return tuple(x and y for x, y in zip(a, b))
+
+
+def walk(table, ns, t, inst, plain, members, outer, avail, mode: str, hits: dict):
+    """hereditary reference (mode 'spec') / prediction under the two known findings (mode 'kf'):
+    the mapping expected for the instance `inst` of tree `t`; avail = (omit_none, by_alias, dialect ns)
+    values of the caller's keyword parameters; hits records where D14 / D8b corners are met."""
+    cid, ch = t
+    c = table[cid]
+    fl_spec = both_flags(outer, cls_flags(c))
+    fl = fl_spec
+    if len(members) > 1:
+        fl_impl = None
+        for m in members:
+            cand = both_flags(outer, cls_flags(table[m]))
+            if all((not x) or y for x, y in zip(cand, cls_flags(c))):
+                fl_impl = cand
+                break
+        if fl_impl != fl_spec:
+            hits["d8b"] = True
+            if mode == "kf":
+                fl = fl_impl
+    o = replace(c.o, kon=avail[0] if fl[0] else None, kba=avail[1] if fl[1] else None, call=avail[2] if fl[2] else None)
+    if d14_signature(o):
+        hits["d14"] = True
+    e = effective_d14(o) if mode == "kf" else effective(o)
+    avail2 = (e["on"], e["ba"], o.call)
+    fields = list(c.fields)
+    defaults = {}
+    for f in fields:
+        if isinstance(f, FieldSpec):
+            if f.dkind == "val":
+                defaults[f.name] = eval(f.dsrc, ns)
+            elif f.dkind == "fac":
+                defaults[f.name] = eval(f.dsrc, ns)()
+        elif f.optional:
+            defaults[f.name] = None
+    sub = {}
+    for f, x in zip(fields, ch):
+        if isinstance(f, DcField) and not isinstance(x, str):
+            sub[f.name] = walk(table, ns, x, getattr(inst, f.name), plain[f.name], f.members, cls_flags(c), avail2, mode, hits)
+    return project(e, fields, defaults, inst, plain, sub)
+
+
+# ---- Coq terms for the nested correspondence ----
+
+NESTED_DEFS = COQ_DEFS.split("Definition case_ok")[0] + """
+Definition G a b c d := {| g_on := a; g_ba := b; g_dl := c; g_cx := d |}.
+Definition C cfgd cfg srt fl fs := {| c_cfgd := cfgd; c_cfg := cfg; c_sort := srt; c_flags := fl; c_fields := fs |}.
+Definition K a b c := {| kw_on := a; kw_ba := b; kw_dl := c |}.
+Definition ncase_ok (c: list cls * node * kwv * option pv * bool) : bool :=
+  match c with (ct, n, k, expected, py_in_domain) =>
+    match to_dict_h ct false n 0 k, expected with
+    | Some a, Some b => pv_eqb a b
+    | None, None => true
+    | _, _ => false end
+    && Bool.eqb (ok_h ct n [0%nat] root_flags k) py_in_domain end.
+"""
+
+
+def coq_dcfield(f: DcField) -> str:
+    al = "None" if f.alias is None else f"(Some {coq_str(f.alias)})"
+    d = "(DVal PNone)" if f.optional else "DNo"
+    return f"(P {coq_str(f.name)} {al} {coq_bool(f.optional)} false {d} {coq_bool(f.omit)})"
+
+
+def coq_table(table, ns, enc) -> str:
+    out = []
+    for c in table:
+        fs = []
+        for f in c.fields:
+            if isinstance(f, FieldSpec):
+                d = field_defaults([f], ns)
+                fs.append(f"({coq_field(f, d, enc)}, [])")
+            else:
+                fs.append(f"({coq_dcfield(f)}, [" + "; ".join(f"{m}%nat" for m in f.members) + "])")
+        o = c.o
+        out.append(f"(C {coq_ns(o.cfgd)} (N {o.cfg[0]} {o.cfg[1]} {o.cfg[2]}) {coq_bool(o.sort)} "
+                   f"(G {coq_bool(o.fon)} {coq_bool(o.fba)} {coq_bool(o.fdl)} {coq_bool(o.fcx)}) {coq_list(fs)})")
+    return coq_list(out)
+
+
+def coq_node(table, t, inst, plain, enc) -> str:
+    cid, ch = t
+    parts = []
+    for f, x in zip(table[cid].fields, ch):
+        if isinstance(x, str):
+            parts.append(f"(NLeaf {enc(getattr(inst, f.name))} {enc(plain[f.name])})")
+        else:
+            parts.append(coq_node(table, x, getattr(inst, f.name), plain[f.name], enc))
+    return f"(NObj {cid} {coq_list(parts)})"
+
+
+def coq_tree_value(v, enc) -> str:
+    if isinstance(v, dict):
+        return "(PDict " + coq_list(f"({coq_str(k)}, {coq_tree_value(x, enc)})" for k, x in v.items()) + ")"
+    return enc(v)
+
+
+def run_nested(ctx: vlib.Ctx, ncases: list[str], ninfo: list):
+    rng = ctx.rng
+    for _ in range(ctx.budget(150, 1500)):
+        table = gen_table(rng)
+        root = table[0]
+        call = gen_ns(rng, 0.2) if (root.o.fdl and rng.random() < 0.35) else None
+        src = table_source(table, call)
+        ns = load(src)
+        for _ in range(3):
+            kon = rng.choice([None, True, False]) if root.o.fon else None
+            kba = rng.choice([None, True, False]) if root.o.fba else None
+            ro = replace(root.o, kon=kon, kba=kba, call=call)
+            t = gen_tree(rng, table, 0)
+            inst = eval(tree_src(table, t, "C"), ns)
+            twin = eval(tree_src(table, t, "P"), ns)
+            plain = twin.to_dict()
+            hits: dict = {}
+            all_flags = (True, True, True, True)
+            avail = (kon, kba, call)
+            expected = walk(table, ns, t, inst, plain, (0,), all_flags, avail, "spec", hits)
+            ctx.count(("nested", repr(table), repr(t), kon, kba, call))
+            ctx.hist("entry", "nested")
+            ctx.hist("nested_depth_classes", str(len(table)))
+            rep = {"kind_of_case": "nested", "source": src, "cls": "C0", "twin": "P0", "instance": tree_src(table, t, "C"),
+                   "twin_instance": tree_src(table, t, "P"), "entry": "to_dict", "kwargs": kwargs_src(ro),
+                   "default_dialect": None, "expected": repr(expected), "plain": repr(plain)}
+            try:
+                observed = inst.to_dict(**call_kwargs(ro, ns))
+            except Exception as ex:
+                rep["observed"] = f"{type(ex).__name__}: {ex}"
+                ctx.fail(f"nested to_dict({kwargs_src(ro)}) raised {type(ex).__name__}: {ex}"[:300], rep,
+                         {"kind": "raised-" + type(ex).__name__, "entry": "nested"})
+                continue
+            rep["observed"] = repr(observed)
+            enc = PvEnc()
+            in_domain = not hits
+            ncases.append(f"({coq_table(table, ns, enc)}, {coq_node(table, t, inst, plain, enc)}, "
+                          f"(K {coq_ob(kon)} {coq_ob(kba)} {coq_ns(call)}), (Some {coq_tree_value(observed, enc)}), {coq_bool(in_domain)})")
+            ninfo.append(rep)
+            if typed(observed) != typed(expected):
+                kind = "nested-projection-mismatch"
+                if hits:
+                    h2: dict = {}
+                    predicted = walk(table, ns, t, inst, plain, (0,), all_flags, avail, "kf", h2)
+                    if typed(predicted) == typed(observed):
+                        kind = "union-member-flags" if hits.get("d8b") else "call-dialect-vs-flag-defaults"
+                ctx.fail(f"nested to_dict({kwargs_src(ro)}) = {observed!r}, hereditary projection of the plain output is {expected!r}"[:400],
+                         rep, {"kind": kind, "entry": "nested"})
+            ctx.hist("form", "nested-kf-zone" if hits else "nested-in-domain")
+        unload(ns)
+
+
+# ---------------------------------------------------------------------------
 # run
 # ---------------------------------------------------------------------------
 
@@ -708,14 +969,19 @@ def run(ctx: vlib.Ctx):
         "value equals default: Python == on the attribute value; a NaN default is matched by NaN",
         "D14 corner (call dialect vs forwarded keyword defaults) excluded by flag_defaults_ok and proved refuted",
     ]
-    thm = ["K3_order", "K3_look", "K8_forward", "K8_use_kwargs", "C08_project_partial", "C08_project_refuted", "C08_nan_default_refuted",
-           "C08_project_actual"]
-    ctx.theorems("props/C08_project.vo", thm, kernels=["K3", "K8"])
+    thm = ["C08_project_partial", "C08_project_refuted", "C08_nan_default_refuted", "C08_project_actual"]
+    ctx.theorems("props/C08_kernels.vo", ["K3_order", "K3_look", "K8_forward", "K8_use_kwargs"], kernels=["K3", "K8"])
+    ctx.theorems("props/C08_project.vo", thm)
+    ctx.theorems("props/C08_nested.vo", ["C08_nested_partial", "C08_union_flags_refuted", "C08_forwarded_exactly", "C08_no_leak"])
 
     cases: list[str] = []
     info: list = []
     run_flat(ctx, cases, info)
     run_lattice(ctx, cases, info)
+
+    ncases: list[str] = []
+    ninfo: list = []
+    run_nested(ctx, ncases, ninfo)
 
     name = "to_dict-model-vs-generated-code"
     bad, log = vlib.coq_bad_idx("c08_flat", "OptProj", "", COQ_DEFS, cases, "case_ok",
@@ -730,6 +996,22 @@ def run(ctx: vlib.Ctx):
             ev = info[bad[0]]
             detail = f"{len(bad)} cases, first: options {ev.o!r} instance {inst_src('X', ev.fields, ev.vals)} observed {ev.observed!r}\n{ev.src}"
         ctx.correspondence(name, len(cases), len(bad), detail)
+        if bad:
+            ctx.not_shown("correspondence " + name, detail)
+
+    name = "nested-model-vs-generated-code"
+    bad, log = vlib.coq_bad_idx("c08_nested", "OptProj OptNested", "", NESTED_DEFS, ncases, "ncase_ok",
+                                "list cls * node * kwv * option pv * bool", shard=300,
+                                needs=["theories/OptNested.vo"])
+    if bad is None:
+        ctx.correspondence(name, len(ncases), -1, log)
+        ctx.not_shown("correspondence " + name, log)
+    else:
+        detail = ""
+        if bad:
+            r = ninfo[bad[0]]
+            detail = f"{len(bad)} cases, first: {r['instance']}.to_dict({r['kwargs']}) observed {r['observed']}\n{r['source']}"
+        ctx.correspondence(name, len(ncases), len(bad), detail)
         if bad:
             ctx.not_shown("correspondence " + name, detail)
 
